@@ -326,5 +326,7 @@ def check(chk, repo):
     check_pdf(chk, rep, repo)
     check_eliminate(chk, rep, repo)
     check_typestate(chk, rep, repo)
+    from ..common import check_model_premises
+    check_model_premises(rep, repo)
     chk.undecided.append("that the k slots kept by the scan are the k smallest distances (insertion-scan loop invariant)")
     chk.assumptions.append("k >= 1; ties among distances may appear in either order")
